@@ -7,6 +7,7 @@ import (
 	"net/url"
 	"os"
 	"path"
+	"reflect"
 	"strconv"
 
 	"github.com/go-openapi/analysis/internal/debug"
@@ -359,6 +360,11 @@ DOWNREF:
 		value, _, err := currentRef.GetPointer().Get(sp)
 		if err != nil {
 			return nil, err
+		}
+
+		if rv := reflect.ValueOf(value); rv.Kind() == reflect.Ptr && rv.IsNil() {
+			// the pointer designates a part of the schema which is not set (e.g. no additionalItems)
+			return nil, ErrNoSchema(currentRef.String())
 		}
 
 		switch refable := value.(type) {
